@@ -827,6 +827,9 @@ class PteraTransformer(NodeTransformer):
         After:
             x: int = _ptera_interact('x', int)
         """
+        if node.value is None and not isinstance(node.target, ast.Name):
+            # ``obj.attr: T`` assigns nothing in Python
+            return node
         return self.make_interaction(
             node.target,
             self._ann(node.annotation),
